@@ -896,7 +896,7 @@ class Engine:
         yield st, rv
 
     # ---------------------------------------------------------------- iterator pipelines
-    FUSABLE = ("filter", "map", "filter_map", "flat_map", "inspect", "cloned", "copied")
+    FUSABLE = ("filter", "map", "filter_map", "flat_map", "inspect", "cloned", "copied", "take_while", "skip_while_never")
 
     def pipeline_of(self, st, t):
         """the iterator expression behind a pointer / loop variable / already-advanced iterator"""
@@ -966,7 +966,7 @@ class Engine:
             if nm in ("cloned", "copied"):
                 yield s1, (_val(self, s1, e) if e[0] == "ptr" else e)
                 continue
-            if nm in ("filter", "inspect"):
+            if nm in ("filter", "inspect", "take_while"):
                 self.frame_counter += 1
                 tmp = ("L", self.frame_counter, -7)
                 s1.store[tmp] = e
@@ -977,7 +977,8 @@ class Engine:
                         yield s2, e
                         continue
                     for s3, b in self.split_truth(s2, r):
-                        yield s3, (e if b else ITER_SKIP)
+                        # take_while: the first element that fails ends the iteration (the loop is left)
+                        yield s3, (e if b else (ITER_END if nm == "take_while" else ITER_SKIP))
                 continue
             for s2, r in call_closure(self, s1, clo, [e], depth, site):
                 if r is PANIC:
